@@ -154,6 +154,7 @@ template <class U> static inline U src_value(unsigned f, int j, int dc) {
 	// exercised, not only the placement of its arguments; the oracle stays static_cast<T>(value)
 	if (f == 7 && dc == DC_FLOAT && sizeof(U) >= 4 && !std::is_floating_point<U>::value) {
 		long long w = (1LL << 25) + 3 + (long long)j * ((1LL << 26) + 16);
+		if (!std::is_signed<U>::value && (j & 1)) w = 0x80000081LL + (long long)j * 0x01000400LL;  // unsigned sources: every other value has its top bit set (a signed conversion would go negative)
 		return (U)(neg ? -w : w);
 	}
 	return (U)(neg ? -m : m);
